@@ -11,6 +11,14 @@ TB = ('CPython 3.12 (struct, hashlib, json, zoneinfo), attrs equality, cryptodat
       'the explorer kernel in /verif/mc and the reference models in /verif/mc/ref')
 
 CHECKS = {
+    'C01': dict(
+        technique='explicit-state BFS over the object graph (single-field deviations) with a round-trip oracle',
+        text='Every object within 1 (2 for 31 top-level classes; thorough: 2 / 3, wide alphabets) single-field '
+             'deviations of every seed object (parsed corpus incl. nested values, every enum member, hand seeds) of '
+             'all 363 concrete classes; per object: compose, parse_immutable consumes all, parse_exact_size, '
+             'field-by-field equality. Domain = constructor-accepted values narrowed by the cited RFC rows of '
+             'mc/domain.py.',
+        design='§5 C01'),
     'C02': dict(
         technique='exhaustive enumeration of bounded byte-mutation families on the real parsers',
         text='Every truncation, every single-byte substitution/deletion/insertion, all B5 pairs in the header '
